@@ -301,8 +301,13 @@ impl<Src, Dst> Mat4x4<RealToReal<3, Src, Dst>> {
         use super::float::f32;
         if cfg!(debug_assertions) {
             let det = self.determinant();
+            // Judge near-singularity relative to the scale of the matrix:
+            // |det| is at most the product of the row lengths (Hadamard)
+            let scale_sqr: f32 = (0..4)
+                .map(|i| self.row_vec(i).len_sqr())
+                .product();
             assert!(
-                f32::abs(det) > f32::EPSILON,
+                det * det > f32::EPSILON * f32::EPSILON * scale_sqr,
                 "a singular, near-singular, or non-finite matrix does not \
                  have a well-defined inverse (determinant = {det})"
             );
